@@ -210,6 +210,22 @@ func offerUnconfiguredSuites(extra ...uint16) dtls.Option {
 	})
 }
 
+// offerOnlyForeignGroups is a ClientHello hook that replaces the supported_groups list by groups this library
+// has no implementation of (secp521r1, x448): what a conforming client with another policy sends. No group is
+// common; a server that goes on anyway announces a group the hello did not list.
+func offerOnlyForeignGroups() dtls.Option {
+	return dtls.WithClientHelloMessageHook(func(m handshake.MessageClientHello) handshake.Message {
+		ext := append([]extension.Value(nil), m.Extensions...)
+		for i, e := range ext {
+			if e.ExtensionType() == extension.TypeSupportedGroups {
+				ext[i] = &extension.SupportedGroups{Groups: []elliptic.Curve{0x0019, 0x001e}}
+			}
+		}
+		m.Extensions = ext
+		return &m
+	})
+}
+
 func devCatalogue() []dev {
 	return []dev{
 		// signature schemes
@@ -309,6 +325,7 @@ func devCatalogue() []dev {
 			c.Extra = append(c.Extra, offerUnconfiguredSuites(uint16(dtls.TLS_AES_256_GCM_SHA384), uint16(dtls.TLS_CHACHA20_POLY1305_SHA256),
 				uint16(dtls.TLS_ECDHE_ECDSA_WITH_AES_256_GCM_SHA384), uint16(dtls.TLS_ECDHE_RSA_WITH_AES_256_GCM_SHA384), uint16(dtls.TLS_PSK_WITH_AES_128_CCM_8)))
 		}},
+		{"hook", "hook=ch-offers-only-foreign-groups", func(c, s *world.Cfg) { c.Extra = append(c.Extra, offerOnlyForeignGroups()) }},
 		{"hook", "hook=ch2-drops-ems", func(c, s *world.Cfg) { c.Extra = append(c.Extra, dropOnRetry(extension.TypeExtendedMasterSecret)) }},
 		{"hook", "hook=ch2-drops-renegotiation-info", func(c, s *world.Cfg) { c.Extra = append(c.Extra, dropOnRetry(extension.TypeRenegotiationInfo)) }},
 	}
@@ -755,6 +772,19 @@ func judge(w *world.World, pr *world.Pair, cc, sc world.Cfg) verdict {
 			v.Counters["wire_group_checked"]++
 			if !hasU16(m.Groups, g) {
 				viol(fmt.Sprintf("group-%#04x-outside-policy", g), "ServerHello key_share uses group %#04x; admissible %#04x", g, m.Groups)
+			}
+		}
+		if ske != nil && ske.HasCurve && lastCH != nil {
+			if sg, ok := findExt(lastCH.Exts, extSupportedGroups); ok && len(sg.Data) >= 2 {
+				listed := false
+				for i := 2; i+1 < len(sg.Data); i += 2 {
+					if uint16(sg.Data[i])<<8|uint16(sg.Data[i+1]) == ske.Curve {
+						listed = true
+					}
+				}
+				if !listed {
+					viol("serverkeyexchange-curve-not-in-clienthello", "ServerKeyExchange uses curve %#04x which the ClientHello did not list (supported_groups %x)", ske.Curve, sg.Data[2:])
+				}
 			}
 		}
 		if ske != nil && ske.HasCurve {
